@@ -67,7 +67,7 @@ def bounds(tier):
 
 def shards(tier):
     maxb = 3 if tier == "quick" else 4
-    out = [("short", 0), ("construction", 0), ("leak", 0), ("special", 0)] + [("mid", a) for a in MID]
+    out = [("short", 0), ("construction", 0), ("leak", 0), ("special", 0)] + [("mid", a) for a in MID] + [("big", n) for n in BIG_SIZES[tier]]
     for a in NAMES:
         for b in NAMES:
             out.append(("pre", a, b))
@@ -280,6 +280,31 @@ def run_special(acc):
                         break
 
 
+BIG_SIZES = {"quick": [255, 256, 257, 1023, 1024, 1025, 1337, 2049, 3100], "thorough": [255, 256, 257, 1023, 1024, 1025, 1337, 2049, 3100, 4097, 8193, 16385]}
+
+
+def big_library(n, lead):
+    """n blocks: `lead` @string blocks, then entries whose keys are in no particular order (ties included), a comment run
+    above every seventh block and above the blocks around every power of two; tagged by position like every library here."""
+    blocks = []
+    for i in range(n):
+        near_pow2 = any(abs(i - (1 << k)) <= 2 for k in range(6, 15))
+        if i < lead:
+            blocks.append(String(f"s{(i * 7) % 5}", "v", start_line=n - i, raw=f"@string#{i}"))
+        elif (i % 7 == 3 or near_pow2) and i + 1 < n:
+            blocks.append((ImplicitComment if i % 2 else ExplicitComment)(f"c{i}", start_line=n - i, raw=f"c#{i}"))
+        else:
+            blocks.append(Entry("article", f"k{(i * 7919) % 501:03d}", [], start_line=n - i, raw=f"@article#{i}"))
+    return Library(blocks)
+
+
+def check_big(n, acc):
+    for lead in range(4):
+        for order, on_top in (((0, 1, 2, 3, 4), True), ((2, 0), True), ((0, 1, 2, 3, 4), False)):
+            acc.count("big_libraries")
+            check(("big", n, lead), big_library(n, lead), order, on_top, acc)
+
+
 def check_flag_readings(acc):
     """`preserve_comments_on_top` is annotated bool; a non-bool (1, 0, "yes", None) must still mean ONE thing: the sorter
     behaves on every library as the True configuration or as the False configuration does, throughout."""
@@ -343,6 +368,8 @@ def run_shard(shard, tier, acc):
     maxb = 3 if tier == "quick" else 4
     if shard[0] == "construction":
         return check_construction_order(acc)
+    if shard[0] == "big":
+        return check_big(shard[1], acc)
     if shard[0] == "short":
         run_libs([()] + [(a,) for a in NAMES], acc)
         return
@@ -387,6 +414,8 @@ def replay(case, acc):
     if "leak" in case:
         return run_shard(("leak", 0), "quick", acc)
     names = tuple(case["library"])
+    if names[:1] == ("big",):
+        return check_big(names[1], acc)
     order = tuple([t.__name__ for t in TYPES_ALL].index(t) for t in case["order"])
     # history of the run: sorters with every other order were built before this one (state kept on the class, if any)
     allo = ORDERS + LONG_ORDERS
